@@ -198,7 +198,7 @@ SeriesIter(e) ==
     IF brk THEN UNCHANGED <<pc, lastFp, i, j, brk, out>>            \* matrix: the loop over this batch was left
     ELSE IF e.kind = "err" THEN                                       \* onErr(e.Err, res); return
         /\ pc' = "aborted"
-        /\ out' = IF w = "tail" THEN ErrTail ELSE out \o ErrTail      \* Tail drops its buffer: the message is "]}}" alone
+        /\ out' = IF w = "tail" THEN <<>> ELSE out \o ErrTail         \* Tail (since fix dab116d): logs, sends no frame, closes
         /\ UNCHANGED <<lastFp, i, j, brk>>
     ELSE IF e.kind = "eof" THEN                                       \* streams: continue; matrix: break
         /\ brk' = EofBreaks(w)
